@@ -209,8 +209,14 @@ func (w *world) opWait(i int, expectOwn bool) string {
 	m := w.objs[i]
 	var r *queue.Message
 	var err error
+	// after a close the wait must come back with an error by itself: give it a long deadline, so that a
+	// wait that would block (Wait = WaitTimeout(-1)) is told apart from one that returns `closed`
+	d := 30 * time.Millisecond
+	if w.closed {
+		d = closeWait
+	}
 	res := gen.Guard(func() string {
-		r, err = w.req.WaitTimeout(m, 30*time.Millisecond)
+		r, err = w.req.WaitTimeout(m, d)
 		return ""
 	})
 	if res == "panic" {
@@ -219,6 +225,11 @@ func (w *world) opWait(i int, expectOwn bool) string {
 		return "panic"
 	}
 	if err == queue.ErrQueueTimeout {
+		if w.closed {
+			out.Op(fmt.Sprintf("wait %d", i), "blocked")
+			out.Pred("C36|WaitTimeout|blocked-after-close", fmt.Sprintf("wait on request %d:%d did not return within %v after the close (Wait would block forever)", i, w.gen[i], closeWait))
+			return "timeout"
+		}
 		out.Op(fmt.Sprintf("timeout %d", i), "timeout")
 		return "timeout"
 	}
@@ -446,6 +457,11 @@ func scenarioFull(sync bool) {
 	// after the close every new send fails at once
 	i := w.opNew()
 	w.opSend(i, sync)
+	// ... and a wait on a request that was queued before the close and never answered returns `closed`
+	if sync {
+		w.opWait(0, true)
+		w.opWait(capn/2, true)
+	}
 	out.Stat("scenario_full", 1)
 	out.Stat("blocked_senders", int64(len(bl)))
 }
